@@ -96,6 +96,24 @@ theorem bdiv_bin_uiui_spec (n k : ℕ) (hk : ODD_FACTORIAL_TABLE_LIMIT < k) (h2k
 example : bdiv_bin_uiui 300 71 = some 10668045122007095756693423430548958571449389457293007580530849586524000 ∧
     (bdiv_bin_uiui (2 ^ 40) 80).map (· % 10 ^ 9) = some 292441600 := by decide +kernel
 
+/-- binomial (n, k) has fewer than 64 factors of two for n < 2^64 (Kummer: adding k and n−k below 2^64 carries at most 63 times) -/
+theorem choose_two_adic_lt_limb (n k : ℕ) (hn : n < B) (hk : k ≤ n) : ¬ 2 ^ 64 ∣ n.choose k :=
+  choose_not_dvd_two_pow_64 n k hn hk
+example : 2 ^ 63 ∣ Nat.choose (2 ^ 64 - 2 ^ 63) 1 ∧ popcount (2 ^ 63 - 1) + popcount 1 - popcount (2 ^ 63) = 63 := by
+  constructor
+  · simp
+  · decide +kernel
+
+/-- `cnt = i2cnt - j2cnt` (bin_uiui.c:343) in the state where the loop of mpz_bdiv_bin_uiui ends: the subtraction does not
+    wrap and `ASSERT (cnt < GMP_NUMB_BITS)` ("can happen, but not for intended use") holds for EVERY k > 25, 2k ≤ n < 2^64,
+    so mpn_lshift gets a legal count. -/
+theorem bdiv_shift_count_spec (n k : ℕ) (hk : ODD_FACTORIAL_TABLE_LIMIT < k) (h2k : 2 * k ≤ n) (hn : n < B) :
+    bdiv_bin_uiui n k = (if !(bdivFinal n k).ok then none
+      else some ((bdivFinal n k).np <<< ((bdivFinal n k).i2cnt - (bdivFinal n k).j2cnt))) ∧
+    (bdivFinal n k).j2cnt ≤ (bdivFinal n k).i2cnt ∧ (bdivFinal n k).i2cnt - (bdivFinal n k).j2cnt < 64 :=
+  ⟨bdiv_bin_uiui_unfold n k, bdiv_shift_count n k hk h2k hn⟩
+example : (bdivFinal 256 128).i2cnt - (bdivFinal 256 128).j2cnt = 1 ∧ (bdivFinal 300 71).ok = true := by decide +kernel
+
 /-! ## the dispatcher -/
 
 /-- **mpz_bin_uiui (r, n, k) = binomial (n, k) for every n < 2^64 and every k** (k > n gives 0; k is replaced by MIN (k, n−k);
